@@ -222,7 +222,7 @@ func ifaceMethodKey(it types.Type, m string) (string, string) {
 		short := n.Obj().Name() + "." + m
 		return pkg + "." + short, short
 	}
-	return "iface." + m, "iface." + m
+	return "anon.iface." + m, "iface." + m
 }
 
 func (v *FnVC) noteUncontracted(key, short string) {
@@ -245,6 +245,9 @@ func (v *FnVC) havocAllHeaps() {
 		}
 		if v.w.ghostKeys[k] {
 			continue // ghost state is only changed by contracts
+		}
+		if strings.HasPrefix(k, "G|") {
+			continue // package-level variables are treated as initialised once (stores outside init are reported)
 		}
 		v.havoc(k)
 	}
